@@ -80,7 +80,8 @@ class Machine(object):
             'bit_identical_to_in_order_pristine_solver': j.get('identical', 0),
             'bit_identical_rate': round(j.get('identical', 0) / max(1, j.get('judged', 0)), 5),
             'closed_form_checks': j.get('closed', 0),
-            'max_observed_error_log2_relative_to_bound': j.get('worst_margin_bits', None),
+            'max_observed_error_log2_relative_to_bound': max(agg.get('margins') or [None], key=lambda v: -10**9 if v is None else v),
+            'max_observed_error_log2_relative_to_a_componentwise_bound_informational': max(agg.get('margins_componentwise') or [None], key=lambda v: -10**9 if v is None else v),
             'evaluations_after_an_aborted_one': j.get('after_abort', 0),
             'evaluations_that_extended_the_solution': j.get('extends', 0),
             'evaluations_at_a_segment_boundary': j.get('boundary', 0),
@@ -97,7 +98,7 @@ class Machine(object):
                              'stub': ['right-hand sides (ops/callbacks.py)', 'closed forms (ops/odeproblems.py, mpmath elementary functions at >= 2x precision in the pristine state)']},
         }
         return {'coverage': cov, 'assumptions': [
-            'accuracy is judged only for the closed-form problem table (exp, growth, rational, polynomial, oscillator, triangular system)',
+            'accuracy is judged only for the closed-form problem table (exp, growth, rational, polynomial, high-degree polynomial right-hand side, oscillator, triangular system, huge constant component next to an oscillator), component by component',
             'closed forms trust mpmath exp/cos/sin at doubled precision']}
 
 
@@ -277,19 +278,27 @@ def _judge(res, mode):
             L = odeproblems.growth_L(meta['problem'], meta['p'])
             growth = Fraction(3) ** int(L * float(xf - x0f) + 1) if L else Fraction(1)     # >= exp(L t)
             tol_eff = max(tolreq, Fraction(2) ** (10 - peff))
+            # component by component: |h_i - e_i| <= tol x growth x max(|e_i|, 1).  (Until round 9 the bound was
+            # norm-wise - tol x growth x the largest component - under which a small component next to a huge one
+            # may lose all its digits; the quick and thorough batches had shown the same margin for both readings.)
             bound = tol_eff * growth * max([abs(v) for v in e] + [y0n])
+            def off(vec):
+                return max((abs(a - b) / (tol_eff * growth * max(abs(b), Fraction(1)))) for a, b in zip(vec, e))
             de = max(abs(a - b) for a, b in zip(h, e))
-            if de > bound:
+            if off(h) > 1:
                 # is it the solver as such (a pristine in-order solver is just as far off: an input-space
                 # accuracy defect of odefun) or an effect of this history?
-                de_ref = max(abs(a - b) for a, b in zip(f, e))
                 V('closed-form-accuracy', {'err_log2': compare._log2(de), 'bound_log2': compare._log2(bound),
-                                           'in_order_solver_also_off': bool(de_ref > bound),
+                                           'componentwise_excess_log2': compare._log2(off(h)),
+                                           'in_order_solver_also_off': bool(off(f) > 1),
                                            'got': codec.short(r['value'], 160), 'exact': codec.short(rr['exact'], 160)})
             elif de:
-                margin = compare._log2(de / bound)
-                if j.get('worst_margin_bits') is None or margin > j['worst_margin_bits']:
-                    j['worst_margin_bits'] = margin
+                # how close the observed errors come to the bound (sets, so that batches merge by union)
+                st.setdefault('margins', set()).add(int(compare._log2(de / bound)))
+                # the same, component by component (|h_i - e_i| against tol x growth x max(|e_i|, 1)): informational
+                cw = max((abs(a - b) / (tol_eff * growth * max(abs(b), Fraction(1)))) for a, b in zip(h, e))
+                if cw:
+                    st.setdefault('margins_componentwise', set()).add(int(compare._log2(cw)))
     res.pop('records', None)
 
 def codec_spec(spec):
@@ -345,7 +354,11 @@ class _Gen(object):
         if name == 'ode_lin':
             span = min(span, 4.0)
         x0 = _dy(r.randint(-24, 24), 3)
-        if odeproblems.dim(name) == 2:
+        if odeproblems.dim(name) == 3:
+            # one huge component (k * 2^60) next to two of size 1
+            y0 = {'t': 'list', 'v': [_dy(r.randint(1, 24), -60), _dy(r.randint(1, 24), 3), _dy(r.randint(-16, 16), 3)]}
+            span = min(span, 2.0)
+        elif odeproblems.dim(name) == 2:
             y0 = {'t': 'list', 'v': [_dy(r.randint(1, 24), 3), _dy(r.randint(-16, 16), 3)]}
         else:
             y0 = _dy(r.randint(1, 40), 3)          # positive (keeps the pole of y' = -y^2 on the left of x0)
